@@ -84,6 +84,7 @@ func c10Body(env *simrt.Env) {
 
 	expectActive := false
 	writing := false
+	wpaused := false // writing is paused (the last accepted write-control request was PAUSE)
 	starts := 0
 	start := func() {
 		before := c.ds.GetState()
@@ -181,6 +182,7 @@ func c10Body(env *simrt.Env) {
 			simrt.Fail("C10.writing-stopped", "lifecycle:files-open-after-stop", "%s: files still open after the source stopped: %v", what, fds)
 		}
 		writing = false
+		wpaused = false
 		expectActive = false
 	}
 
@@ -237,6 +239,9 @@ func c10Body(env *simrt.Env) {
 		}
 		if k > 1 {
 			simrt.Hit("concurrent-stops")
+		}
+		if writing && wpaused {
+			simrt.Hit("stop-while-writing-paused")
 		}
 		env.Op("%d concurrent Stop calls returned", k)
 		stopsDone = true
@@ -297,6 +302,18 @@ func c10Body(env *simrt.Env) {
 		}
 	}
 
+	selfEndOp := func() {
+		if writing {
+			simrt.Hit("self-termination-while-writing")
+		}
+		if writing && wpaused {
+			simrt.Hit("self-termination-while-writing-paused")
+		}
+		selfEnd()
+		// a client then calls Stop (it does not know the source ended)
+		stopK()
+	}
+
 	nops := 3 + simrt.Draw(8)
 	for i := 0; i < nops; i++ {
 		switch op := simrt.Draw(10); {
@@ -330,17 +347,36 @@ func c10Body(env *simrt.Env) {
 						all[j] = j
 					}
 					sc.ConfigureTriggers(&FullTriggerState{ChannelIndices: all, TriggerState: TriggerState{AutoTrigger: true, AutoDelay: 2 * time.Millisecond, EdgeLevel: 100}}, &ok)
+					if simrt.Draw(2) == 1 {
+						// ... and paused at once (the operator is not ready yet)
+						err := sc.WriteControl(&WriteControlConfig{Request: "PAUSE"}, &ok)
+						env.Op("write PAUSE -> %v", err)
+						wpaused = err == nil
+					}
 				}
+			} else if expectActive && writing {
+				// the operator pauses / resumes writing: the source may then stop, or end by itself, in the paused state
+				req := "PAUSE"
+				if wpaused && simrt.Draw(3) > 0 {
+					req = "UNPAUSE"
+				}
+				err := sc.WriteControl(&WriteControlConfig{Request: req}, &ok)
+				env.Op("write %s -> %v", req, err)
+				if err == nil {
+					wpaused = req == "PAUSE"
+				}
+			}
+			if kind == 3 && env.Faulted() && expectActive && writing && simrt.Chance(1, 2) {
+				// the hardware fails in the middle of a writing session (possibly a paused one)
+				if simrt.Draw(2) == 0 {
+					w.feedBlock(20+simrt.Draw(60), nil)
+				}
+				selfEndOp()
 			}
 		case op < 8:
 			if expectActive && kind == 3 {
 				if env.Faulted() {
-					if writing {
-						simrt.Hit("self-termination-while-writing")
-					}
-					selfEnd()
-					// a client then calls Stop (it does not know the source ended)
-					stopK()
+					selfEndOp()
 				} else {
 					w.feedBlock(30+simrt.Draw(40), nil)
 				}
